@@ -8,6 +8,12 @@ FAM = {"new": "new", "newdbg": "new", "newnt": "new", "delete": "new", "newarr":
        "deletearr": "newarr", "malloc": "malloc", "free": "malloc"}
 FAM_ALLOC = ["new", "newdbg", "newnt", "newarr", "newarrdbg", "newarrnt", "malloc"]
 REL_OF = {"new": "delete", "newarr": "deletearr", "malloc": "free"}
+# every form of operator delete / delete[] (LeakBlocks!DelForms / DelArrForms)
+FORMS = {"delete": ["delete", "deletesz", "deletent", "deletedbg", "deletedbgi"],
+         "deletearr": ["deletearr", "deletearrsz", "deletearrnt", "deletearrdbg", "deletearrdbgi"], "free": ["free"]}
+for _base, _forms in FORMS.items():
+    for _f in _forms:
+        FAM[_f] = FAM[_base]
 
 
 def sym(x):
@@ -143,8 +149,20 @@ def with_periods(rng, ex):
     return out
 
 
+def with_forms(rng, ex):
+    """The same execution with every release through another form of the same operator (sized, nothrow placement, debug placement):
+    the form does not change the family."""
+    out = []
+    for l in ex:
+        if l[0] == "release" and l[1] in FORMS:
+            l = list(l); l[1] = rng.choice(FORMS[l[1]])
+        out.append(l)
+    return out
+
+
 def mode_legs(ctx, conform, exe, execs, tcfg, pcfg, chunk=4000):
-    """Re-runs executions (1) through the thread-safe operator new/delete overloads, (2) with detector period switches interleaved.
+    """Re-runs executions (1) through the thread-safe operator new/delete overloads, (2) with detector period switches interleaved,
+    (3) with every release through a randomly chosen other form of the same operator delete / delete[].
     Same specification: one meaning per entry point, whichever overloads are installed and whatever the detector's period."""
     run_ts = lambda s, l: ctx.run([exe, s, l, str(CAP), "ts"], timeout=900)
     run_h = lambda s, l: ctx.run([exe, s, l, str(CAP)], timeout=900)
@@ -154,5 +172,8 @@ def mode_legs(ctx, conform, exe, execs, tcfg, pcfg, chunk=4000):
     pe = [with_periods(ctx.rng, e) for e in execs]
     for i in range(0, len(pe), chunk):
         conform(ctx, "periods%d" % (i // chunk), pe[i:i + chunk], run_h, "Trace_LeakBlocks", tcfg, pcfg, lambda *a: "period:" + key_fn(*a), tlc_timeout=1800)
-    ctx.evaluations += sum(len(e) for e in execs) + sum(len(e) for e in pe)
-    return len(execs) + len(pe)
+    fe = [with_forms(ctx.rng, e) for e in execs if any(l[0] == "release" for l in e)]
+    for i in range(0, len(fe), chunk):
+        conform(ctx, "forms%d" % (i // chunk), fe[i:i + chunk], run_h, "Trace_LeakBlocks", tcfg, pcfg, lambda *a: "forms:" + key_fn(*a), tlc_timeout=1800)
+    ctx.evaluations += sum(len(e) for e in execs) + sum(len(e) for e in pe) + sum(len(e) for e in fe)
+    return len(execs) + len(pe) + len(fe)
